@@ -2,7 +2,7 @@
 dominated by a range test of that value on both sides (or be a reviewed instance whose saturation is the intended meaning)."""
 import re
 
-from ..mir import strip, show, short_path, contains
+from ..mir import strip, show, short_path, contains, same_modulo_depth
 from ..report import ok, bad, info, site, Floor
 from . import arith
 
@@ -59,6 +59,11 @@ def _records(prog):
     return out
 
 
+def _deep(d):
+    """a descriptor large enough that a match modulo cut-off depth is not an accident (not a bare `unknown` or a constant)"""
+    return isinstance(d, tuple) and d[:1] not in (("unknown",), ("const",)) and len(show(d)) > 40
+
+
 def run(prog, pred=None, floor=1):
     reviewed = arith.load_table("cast_reviewed.json")
     obs = []
@@ -75,12 +80,13 @@ def run(prog, pred=None, floor=1):
                 continue
             op, a, bb = fact
             ca, cb = core(a), core(bb)
-            if ca == c and cb != c:
+            ea, eb = ca == c or (_deep(ca) and same_modulo_depth(ca, c)), cb == c or (_deep(cb) and same_modulo_depth(cb, c))
+            if ea and not eb:
                 if op in ("Ge", "Gt"):
                     lower = True
                 if op in ("Le", "Lt"):
                     upper = True
-            elif cb == c and ca != c:
+            elif eb and not ea:
                 if op in ("Le", "Lt"):
                     lower = True
                 if op in ("Ge", "Gt"):
